@@ -192,7 +192,9 @@ def _collector(case, V, st):
     save = case['save']
     dense = _fields(NPTS)[1][1]
     dense3 = _fields(NPTS[:3], cplx=True)[-1][1]
-    nsteps = 2 * save
+    # times as a restarted run sees them: first collect at step save+1 (not a multiple of the save interval), consecutive steps,
+    # then a repeated time and a jump
+    KS = [save + 1, save + 2, save + 3, save + 4, save + 4, 2 * save + 5, 0, 1]
 
     def make_fn():
         def fn(r):
@@ -207,16 +209,16 @@ def _collector(case, V, st):
             slp = tuple(slice(int(a), int(b)) for a, b in zip(lp.starts, lp.ends))
             dc = DiagnosticCollector(comm, save, c.dt, g, phi)
             rows = []
-            for k in range(nsteps):
+            for k in KS:
                 tt = k * c.dt
                 g.getAllData()[:] = np.transpose(dense * (1 + 0.1 * k) + 0.01 * k, l.dims_order)[sl]
                 phi.getAllData()[:] = np.transpose(dense3 * (1 + 0.2 * k), lp.dims_order)[slp]
                 dc.collect(g, phi, tt)
-                if (k + 1) % save == 0:
-                    dc.reduce()
-                    if r == 0:
-                        rows.append([(float(dc.diagnostics[0, i]), float(dc.l2PhiResult[i]), float(dc.l2GridResult[i]), float(dc.l1Result[i]), float(dc.nPartResult[i]),
-                                      float(dc.min_val[i]), float(dc.max_val[i]), float(dc.KE_val[i]), dc.getLine(i)) for i in range(save)])
+                dc.reduce()
+                if r == 0:
+                    i = k % save          # the slot of step k, whatever was collected before
+                    rows.append((k, i, (float(dc.diagnostics[0, i]), float(dc.l2PhiResult[i]), float(dc.l2GridResult[i]), float(dc.l1Result[i]), float(dc.nPartResult[i]),
+                                        float(dc.min_val[i]), float(dc.max_val[i]), float(dc.KE_val[i]), dc.getLine(i))))
             return rows, [np.asarray(x) for x in g.eta_grid], c.dt
         return fn
     orders = [None]
@@ -237,9 +239,8 @@ def _collector(case, V, st):
         dz = e[2][2] - e[2][1]
         Wt = wr[:, None, None, None] * wv[None, None, None, :] * dq * dz
         W3 = wr[:, None, None] * dq * dz
-        for period, block in enumerate(rows):
-            for i, row in enumerate(block):
-                k = period * save + i
+        for (k, i, row) in rows:
+            if True:
                 F = dense * (1 + 0.1 * k) + 0.01 * k
                 P = dense3 * (1 + 0.2 * k)
                 want = (k * dt, np.sqrt((np.abs(P) ** 2 * W3).sum()), np.sqrt((F * F * Wt).sum()), (np.abs(F) * Wt).sum(), (F * Wt).sum(), F.min(), F.max(),
